@@ -566,6 +566,7 @@ Definition path_included (o : opts) (p : list key) : bool :=
    case ::= (0 opts pv)   -> (0 rendered)                 render (tree_view opts pv), code points
           | (1 str)       -> (1 (tree ...)?)              parse_html str: () when rejected, ((tree ...)) otherwise
           | (2 str)       -> (2 escaped unescaped ok)     escape str, unescape str, no_meta (escape str) as a boolean
+          | (4 tree)      -> (4 rendered names_ok reads_back)   render of an arbitrary tree, names_ok, parse (render t) = normalize [t]
    key  ::= (0 z) | (1 str)
    pv   ::= (0 lkind tname cname raw rep fmt) | (1 is_seq tname cname fmt ((key pv) ...))
    opts ::= (name? root_path enable_summary? for_str max_len summary_tooltip key_tooltip label_keys include? exclude? collapse? uncollapse
@@ -620,6 +621,50 @@ Fixpoint e_hnode (t : hnode) : tr :=
   | RawEl tag body => L [I 3%Z; estr tag; estr body]
   end.
 
+Fixpoint d_hnode (fuel : nat) (t : tr) : option hnode :=
+  match fuel with
+  | O => None
+  | S f =>
+    match t with
+    | L [I 0%Z; tag; opts; attrs; L kids] =>
+        do tag' <- dstr tag; do opts' <- dlist dstr opts; do attrs' <- dlist (dpair dstr dstr) attrs;
+        do kids' <- dall (d_hnode f) kids; Some (El tag' opts' attrs' kids')
+    | L [I 1%Z; s] => do s' <- dstr s; Some (Txt s')
+    | L [I 2%Z; s] => do s' <- dstr s; Some (Raw s')
+    | L [I 3%Z; tag; body] => do tag' <- dstr tag; do body' <- dstr body; Some (RawEl tag' body')
+    | _ => None
+    end
+  end.
+
+Fixpoint list_eqb {A} (f : A -> A -> bool) (a b : list A) : bool :=
+  match a, b with
+  | [], [] => true
+  | x :: a', y :: b' => f x y && list_eqb f a' b'
+  | _, _ => false
+  end.
+Fixpoint hnode_eqb (a b : hnode) {struct a} : bool :=
+  match a, b with
+  | El t1 o1 a1 k1, El t2 o2 a2 k2 =>
+      str_eqb t1 t2 && list_eqb str_eqb o1 o2
+      && list_eqb (fun x y => str_eqb (fst x) (fst y) && str_eqb (snd x) (snd y)) a1 a2
+      && (fix go (l1 l2 : list hnode) {struct l1} : bool :=
+            match l1, l2 with
+            | [], [] => true
+            | x :: r1, y :: r2 => hnode_eqb x y && go r1 r2
+            | _, _ => false
+            end) k1 k2
+  | Txt s1, Txt s2 => str_eqb s1 s2
+  | Raw s1, Raw s2 => str_eqb s1 s2
+  | RawEl t1 b1, RawEl t2 b2 => str_eqb t1 t2 && str_eqb b1 b2
+  | _, _ => false
+  end.
+(* does the strict parser read the rendering back as the normal form of the tree? (true whenever names_ok, by render_parse) *)
+Definition reads_back (t : hnode) : bool :=
+  match parse_html (render t) with
+  | Some d => list_eqb hnode_eqb d (normalize [t])
+  | None => false
+  end.
+
 Definition no_metab (l : str) : bool := forallb (fun c => negb (is_meta4 c)) l && amps_ok l.
 
 Definition run_content (c : tr) : tr :=
@@ -637,6 +682,11 @@ Definition run_content (c : tr) : tr :=
   | L [I 2%Z; s] =>
       match dstr s with
       | Some s' => L [I 2%Z; estr (escape s'); estr (unescape s'); ebool (no_metab (escape s'))]
+      | None => ebad
+      end
+  | L [I 4%Z; t] =>
+      match d_hnode 100 t with
+      | Some t' => L [I 4%Z; estr (render t'); ebool (names_okb t'); ebool (reads_back t')]
       | None => ebad
       end
   | _ => ebad
